@@ -20,9 +20,10 @@ import (
 )
 
 func init() {
-	const expl = "(typed AST): in every loop over a []*index.Reader whose body looks a stream up by id ((*index.Reader).StreamByID), no break of that loop, goto or non-failing return stands in front of the lookup: a reader may be skipped (continue) but the search may only end after the reader of the current iteration was asked. Ids are not monotone in the position of a file — an import that only continues old streams creates a newer file with a lower highest id — so `if id > idx.MaxStreamID() { break }` makes streams unreachable until the next merge, and the same id is found again afterwards: the answer of a lookup depends on whether a merge has happened."
+	const expl = "(typed AST): in every loop over a []*index.Reader whose body looks a stream up by id ((*index.Reader).StreamByID) or tests its id table for one (containedStreamIds[id], StreamIDs()[id] — the filter that hides superseded versions), no break of that loop, goto or non-failing return stands in front of the lookup: a reader may be skipped (continue) but the search may only end after the reader of the current iteration was asked. Ids are not monotone in the position of a file — an import that only continues old streams creates a newer file with a lower highest id — so `if id > idx.MaxStreamID() { break }` makes streams unreachable until the next merge, and the same id is found again afterwards: the answer of a lookup depends on whether a merge has happened."
 	register("C10", "C10-i "+expl, func(p *Prog, r *Res) { ruleLookupAsksEveryReader(p, r, "C10-i lookup-asks-every-reader") })
 	register("C07", "C07-l "+expl, func(p *Prog, r *Res) { ruleLookupAsksEveryReader(p, r, "C07-l lookup-asks-every-reader") })
+	register("C02", "C02-t "+expl, func(p *Prog, r *Res) { ruleLookupAsksEveryReader(p, r, "C02-t lookup-asks-every-reader") })
 }
 
 func ruleLookupAsksEveryReader(p *Prog, r *Res, rule string) {
@@ -33,6 +34,23 @@ func ruleLookupAsksEveryReader(p *Prog, r *Res, rule string) {
 		return
 	}
 	readerSliceT := "[]*github.com/spq/pkappa2/internal/index.Reader"
+	// the id table of a reader and the methods that hand it out
+	idTable := p.Field("index", "Reader", "containedStreamIds")
+	idAccessors := map[*types.Func]bool{}
+	if idTable != nil {
+		for _, g := range p.FnList {
+			if g.Short != "index" || g.Decl == nil || g.Decl.Recv == nil || g.Body() == nil || len(g.Body().List) != 1 {
+				continue
+			}
+			if ret, ok := g.Body().List[0].(*ast.ReturnStmt); ok && len(ret.Results) == 1 {
+				if se, ok := ast.Unparen(ret.Results[0]).(*ast.SelectorExpr); ok && g.Pkg.TypesInfo.Uses[se.Sel] == types.Object(idTable) {
+					if fo, ok := g.Pkg.TypesInfo.Defs[g.Decl.Name].(*types.Func); ok {
+						idAccessors[fo] = true
+					}
+				}
+			}
+		}
+	}
 	n := 0
 	for _, f := range p.FnList {
 		if f.Body() == nil || (f.Short != "manager" && f.Short != "index" && f.Short != "builder") {
@@ -69,11 +87,30 @@ func ruleLookupAsksEveryReader(p *Prog, r *Res, rule string) {
 				return true
 			}
 			_ = label
-			var first *ast.CallExpr
+			// asking a reader: the lookup call, or the membership test on its id table (containedStreamIds[id] directly
+			// or through the accessor StreamIDs()) — the filter that hides superseded versions asks every newer reader
+			var first ast.Expr
 			inspectShallow(body, func(y ast.Node) bool {
-				if c, ok := y.(*ast.CallExpr); ok && first == nil {
+				if first != nil {
+					return false
+				}
+				switch c := y.(type) {
+				case *ast.CallExpr:
 					if fn := p.Callee(f.Pkg, c); fn != nil && fn.Origin() == lookup {
 						first = c
+					}
+				case *ast.IndexExpr:
+					if idTable != nil {
+						switch b := ast.Unparen(c.X).(type) {
+						case *ast.SelectorExpr:
+							if info.Uses[b.Sel] == types.Object(idTable) {
+								first = c
+							}
+						case *ast.CallExpr:
+							if fn := p.Callee(f.Pkg, b); fn != nil && idAccessors[fn.Origin()] {
+								first = c
+							}
+						}
 					}
 				}
 				return true
